@@ -1,11 +1,11 @@
 package harness
 
 import (
-	"strings"
 	"encoding/json"
 	"os"
 	"path/filepath"
 	"sort"
+	"strings"
 )
 
 var levelOf = map[string]string{"C20": "fault_enumeration"}
@@ -114,27 +114,28 @@ func writeEvidence(o *DriveOpts, recs []*Record, sigs map[string]*sigInfo, other
 	}
 	hours := wall / 3600
 	cov := map[string]any{
-		"evaluations":         len(recs),
-		"distinct_nontrivial": len(ntTraces),
-		"rule":                rule,
-		"samples":             samples,
-		"distinct_traces":     len(traces),
-		"state_signatures":    len(shapes),
-		"runs_per_hour":       int(float64(len(recs)) / maxf(hours, 1e-9)),
-		"simulated_seconds_total": float64(simNS) / 1e9,
-		"faults_fired":        faults,
-		"probes":              probes,
-		"scheduler":           sched,
-		"scenarios":           scen,
-		"tasks_left_blocked":  leaks,
-		"signatures":          sigCounts,
-		"known_findings_seen": knownSeen,
-		"other_signatures_seen": other,
-		"runs_skipped_by_budget": skipped * o.ChunkSize,
-		"workers":             o.Workers,
-		"seeds":               map[string]any{"verif_seed": o.Seed, "first_run_seed": o.Seed*1_000_003 + 17, "runs": o.Runs},
-		"infra_messages":      infra,
-		"exhaustive":          false,
+		"evaluations":                 len(recs),
+		"distinct_nontrivial":         len(ntTraces),
+		"rule":                        rule,
+		"samples":                     samples,
+		"distinct_traces":             len(traces),
+		"state_signatures":            len(shapes),
+		"runs_per_hour":               int(float64(len(recs)) / maxf(hours, 1e-9)),
+		"simulated_seconds_total":     float64(simNS) / 1e9,
+		"faults_fired":                faults,
+		"probes":                      probes,
+		"scheduler":                   sched,
+		"scenarios":                   scen,
+		"tasks_left_blocked":          leaks,
+		"signatures":                  sigCounts,
+		"known_findings_seen":         knownSeen,
+		"other_signatures_seen":       other,
+		"other_signatures_first_seed": o.otherSeed,
+		"runs_skipped_by_budget":      skipped * o.ChunkSize,
+		"workers":                     o.Workers,
+		"seeds":                       map[string]any{"verif_seed": o.Seed, "first_run_seed": o.Seed*1_000_003 + 17, "runs": o.Runs},
+		"infra_messages":              infra,
+		"exhaustive":                  false,
 		"components": map[string]any{
 			"real": []string{"accountant", "gossip (handlers, forwarding, discovery, sync client)", "notaryserver handlers", "webhooksserver handler", "cache (bigcache)", "dataprovider", "pipe", "spice", "transaction", "transformers", "wallet", "aeswrapper", "fileoperations", "heimdalr/dag v1.3.1", "badger v4 (in-memory)", "msgpack x2", "protobuf marshal/unmarshal"},
 			"stub": []string{"gRPC transport (SimNet behind the generated client interface)", "logger (recording)", "telemetry (no-op)", "NATS publisher (nil)"},
